@@ -950,6 +950,21 @@ class Interp:
                 yield from self.cond(ast.copy_location(
                     ast.BoolOp(ast.And(), terms), e), env, st, ctx)
                 return
+            if isinstance(e.left, ast.NamedExpr) or isinstance(
+                    e.comparators[0], ast.NamedExpr):
+                # a walrus operand may fork (a decoder call) and binds its
+                # name for what follows
+                for l, env1, st1 in list(self.ev(e.left, env, st, ctx)):
+                    if isinstance(l, Raise):
+                        yield l, env1, st1
+                        continue
+                    for r, env2, st2 in list(self.ev(e.comparators[0], env1,
+                                                     st1, ctx)):
+                        if isinstance(r, Raise):
+                            yield r, env2, st2
+                            continue
+                        yield self.compare(e.ops[0], l, r, st2), env2, st2
+                return
             l = self.ev1(e.left, env, st, ctx)
             r = self.ev1(e.comparators[0], env, st, ctx)
             if isinstance(e.ops[0], (ast.In, ast.NotIn)) and \
@@ -978,6 +993,13 @@ class Interp:
                 yield -v, env, st
             else:
                 raise Unsupported("negation of %r" % (v,))
+        elif isinstance(e, ast.NamedExpr):
+            # (name := value): the value, with the name bound afterwards
+            for v, env2, st2 in list(self.ev(e.value, env, st, ctx)):
+                if not isinstance(v, Raise):
+                    env2 = dict(env2)    # result worlds may share one env
+                    env2[e.target.id] = v
+                yield v, env2, st2
         elif isinstance(e, ast.IfExp):
             for b, env2, st2 in self.cond(e.test, env, st, ctx):
                 if isinstance(b, Raise):
